@@ -1,6 +1,28 @@
-(* C11 -- Invariant text is the one and only path the pattern matches (first lemmas). *)
-From WaxModel Require Import Base Token Regex Spec.
-From WaxProofs Require Import SpecFacts.
+(* C11 -- Invariant text is the one and only path the pattern matches. *)
+From WaxModel Require Import Base Token Regex Spec Variance Fold.
+From WaxProofs Require Import SpecFacts TextFacts.
+
+(* for every token tree (globs and combinators): if the pattern reports invariant text, no other text belongs to its
+   documented language.  The one assumption on the two tables (validated over all code points on every run): a
+   character the code considers caseless is only folded to itself by the regex engine. *)
+Theorem C11_unique :
+  forall (orbit : char -> list char) (has_casing : char -> bool),
+    (forall c d, has_casing c = false -> In d (orbit c) -> d = c) ->
+    forall t txt w,
+      nonempty_branches t = true -> text_variance has_casing t = Ok (Inv txt) -> Lang orbit t w -> w = text_to_string txt.
+Proof. exact invariant_text_is_the_only_text. Qed.
+Print Assumptions C11_unique.
+
+(* a pattern whose documented language has two different texts reports variant text *)
+Theorem C11_two_texts_variant :
+  forall (orbit : char -> list char) (has_casing : char -> bool),
+    (forall c d, has_casing c = false -> In d (orbit c) -> d = c) ->
+    forall t txt x1 x2 f1 l1 f2 l2 w1 w2,
+      nonempty_branches t = true -> Expands t x1 -> Expands t x2 ->
+      FlatMatch orbit f1 l1 x1 w1 -> FlatMatch orbit f2 l2 x2 w2 -> w1 <> w2 ->
+      text_fold has_casing t <> Ok (Some (Inv txt)).
+Proof. exact two_texts_variant. Qed.
+Print Assumptions C11_two_texts_variant.
 
 (* a case sensitive literal matches only its own text, and does match it *)
 Theorem C11_literal_unique : forall orbit s w, lit_sem orbit false s w -> w = s.
